@@ -303,9 +303,19 @@ def run(ctx):
         allf += f
     for key, case, msg in allf:
         res.add(key, case, msg)
+    # "between two commits the global state does not change": engine A with the C13 monitor on real runs
+    from . import _enva
+    from .. import specs as specmod
+
+    def pick(spec):
+        return any(t in spec.name for t in ("dipole_motion", "water/single", "cell_veto+crowd4", "dipoles/cell_bounded",
+                                             "atom_factors", "soft_cuboid_sparse", "hard_disk_dipoles+dense3")) \
+            and "~" not in spec.name
+    st = _enva.run_monitors(ctx, res, ("C13",), spec_filter=pick)
+    total_runs = st["executions"]
     res.coverage = {
-        "states": total, "transitions": total, "traces_validated_against_impl": total,
-        "evaluations": total, "distinct_nontrivial": len(kinds),
+        "states": total, "transitions": total, "traces_validated_against_impl": total + total_runs,
+        "evaluations": total + total_runs, "distinct_nontrivial": len(kinds), "explored_runs": total_runs,
         "rule": "all operation sequences of length <= %d (at most %d extractions) over extract / 5 mutations per branch "
                 "node / insert / active, on tree shapes %r x start states %r of the real TreeStateHandler, each "
                 "replayed on a fresh object and compared with a dict model after the last operation; explored as a "
@@ -320,6 +330,9 @@ def run(ctx):
 
 
 def replay(ctx, case):
+    if "sequence" not in case:
+        from . import _enva
+        return _enva.replay(ctx, case, ("C13",))
     seq = [tuple(o) for o in dec(case["sequence"])]
     seq = [tuple(tuple(x) if isinstance(x, (list, tuple)) else x for x in o) for o in seq]
     _, v = run_sequence(tuple(case["shape"]), case["start"], seq)
